@@ -506,4 +506,55 @@ theorem safeS_renameLoop (k : Nat) (e : Errno) (cfg : Cfg) (hlq : LogQuiet cfg) 
       · intro f s b s'
         exact bind_ne_ok _ _ _ _ _ (fun _ s1 => bind_throw_ne_ok _ _ _ _ _)
 
+-- leftover temp files ------------------------------------------------------------------------------------------------------
+
+/-- with the truncating create (`File::create`), a file that a killed process left at the temp name — whatever it holds —
+    never makes a later content edit fail: the atomic replace runs to its normal end, the target holds the complete new
+    content and the temp name is free again -/
+theorem safeQ_replaceFile_leftover (f : Path) (c c' x : Bytes) (m mx : Nat) (hne : tmpPath f ≠ f) :
+    SafeQ (fun t => lookup t (tmpPath f) = some (.file x mx) ∧ lookup t f = some (.file c m) ∧
+        parentOk t (tmpPath f) = .ok ())
+      (replaceFileX false f c' m)
+      (fun _ t => lookup t f = some (.file c' m) ∧ lookup t (tmpPath f) = none) (fun _ => False) := by
+  have hfn : f ≠ tmpPath f := fun h => hne h.symm
+  unfold replaceFileX
+  refine safeQ_bind (Q := fun _ t => (∃ m1, lookup t (tmpPath f) = some (.file [] m1)) ∧ lookup t f = some (.file c m))
+    (safeQ_doOp _ ?_ ?_) (fun _ => ?_)
+  · intro t t' ⟨hl, hf, _⟩ he
+    obtain ⟨hfr, _, htr⟩ := frame_openw he
+    exact ⟨htr rfl, by rw [hfr f hfn]; exact hf⟩
+  · intro t e ⟨hl, _, hp⟩ he
+    simp [execOp, hp, hl] at he
+  refine safeQ_bind (Q := fun _ t => (∃ m1, lookup t (tmpPath f) = some (.file c' m1)) ∧ lookup t f = some (.file c m))
+    ?_ (fun _ => ?_)
+  · unfold writeAll
+    by_cases hce : c'.isEmpty = true
+    · simp only [hce, if_true]
+      refine safeQ_pure () ?_
+      intro t ⟨⟨m1, hl⟩, hf⟩
+      have : c' = [] := by simpa using hce
+      exact ⟨⟨m1, this ▸ hl⟩, hf⟩
+    · simp only [hce, Bool.false_eq_true, if_false]
+      refine safeQ_doOp _ ?_ ?_
+      · intro t t' ⟨⟨m1, hl⟩, hf⟩ he
+        obtain ⟨hfr, c1, m2, h0, h1⟩ := frame_write he
+        rw [hl] at h0; cases h0
+        exact ⟨⟨m1, by simpa using h1⟩, by rw [hfr f hfn]; exact hf⟩
+      · intro t e ⟨⟨m1, hl⟩, _⟩ he
+        simp [execOp, hl] at he
+  refine safeQ_bind (Q := fun _ t => lookup t (tmpPath f) = some (.file c' m) ∧ lookup t f = some (.file c m))
+    (safeQ_doOp _ ?_ ?_) (fun _ => ?_)
+  · intro t t' ⟨⟨m1, hl⟩, hf⟩ he
+    obtain ⟨hfr, hm⟩ := frame_chmod he
+    exact ⟨hm c' m1 hl, by rw [hfr f hfn]; exact hf⟩
+  · intro t e ⟨⟨m1, hl⟩, _⟩ he
+    simp [execOp, hl] at he
+  refine safeQ_doOp _ ?_ ?_
+  · intro t t' ⟨hl, hf⟩ he
+    obtain ⟨hb, ha, _⟩ := rename_file_over_file hl hf hne he
+    exact ⟨hb, ha⟩
+  · intro t e ⟨hl, hf⟩ he
+    have hb : (tmpPath f == f) = false := by simpa using hne
+    simp [execOp, hl, hf, hb] at he
+
 end ExecL
